@@ -164,3 +164,4 @@ impl<T: Decodable> DecodableSpecImpl for Vec<T> {
     uninterp spec fn dec_val(s: Seq<u8>) -> Vec<T>;
     uninterp spec fn dec_len(s: Seq<u8>) -> nat;
 }
+
